@@ -299,6 +299,103 @@ def drain_compressors(z):
                 pass
 
 
+# --- KF-04: what py7zr fed the PPMd encoder, recorded so that the library alone can be run on exactly that -------------------
+PPMD_FEEDS = []  # per encoder object of the current case: {"order", "mem", "pieces": [bytes], "size", "overflow"}
+_PPMD_FEED_LIMIT = 8 << 20
+
+
+def install_ppmd_recorder():
+    """wrap py7zr.compressor.PpmdCompressor so that the input pieces of every encode() call are kept (up to 8 MiB per case);
+    the wrapped methods do exactly what the originals do"""
+    import py7zr.compressor as PC
+
+    cls = PC.PpmdCompressor
+    if getattr(cls, "_verif_recorded", False):
+        return
+    o_init, o_comp = cls.__init__, cls.compress
+
+    def __init__(self, properties):
+        o_init(self, properties)
+        try:
+            order, mem = self._decode_property(properties)
+            self._verif_feed = {"order": order, "mem": mem, "pieces": [], "size": 0, "overflow": False}
+            PPMD_FEEDS.append(self._verif_feed)
+        except Exception:
+            self._verif_feed = None
+
+    def compress(self, data):
+        fd = getattr(self, "_verif_feed", None)
+        if fd is not None and not fd["overflow"]:
+            if sum(f["size"] for f in PPMD_FEEDS) + len(data) > _PPMD_FEED_LIMIT:
+                fd["overflow"] = True
+                fd["pieces"] = []
+            else:
+                fd["pieces"].append(bytes(data))
+                fd["size"] += len(data)
+        return o_comp(self, data)
+
+    cls.__init__ = __init__
+    cls.compress = compress
+    cls._verif_recorded = True
+
+
+_KF04_PROBE = r"""
+import sys, struct, pyppmd
+order, mem = int(sys.argv[1]), int(sys.argv[2])
+raw = sys.stdin.buffer.read()
+pieces, pos = [], 0
+while pos < len(raw):
+    (n,) = struct.unpack_from("<I", raw, pos)
+    pieces.append(raw[pos + 4:pos + 4 + n])
+    pos += 4 + n
+data = b"".join(pieces)
+
+def decodes(stream):
+    try:
+        dec = pyppmd.Ppmd7Decoder(order, mem)
+        res, p = bytearray(), 0
+        while len(res) < len(data):
+            if dec.needs_input:
+                piece = stream[p:p + (1 << 20)] or b"\0"
+                p += len(piece)
+            else:
+                piece = b""
+            got = dec.decode(piece, len(data) - len(res))
+            if not got and p > len(stream) + 64:
+                return False
+            res += got
+        return bytes(res) == data
+    except Exception:
+        return False
+
+e = pyppmd.Ppmd7Encoder(order, mem)
+one = e.encode(data) + e.flush()
+e = pyppmd.Ppmd7Encoder(order, mem)
+pw = b"".join(e.encode(x) for x in pieces) + e.flush()
+sys.stdout.write("kf04" if decodes(one) and not decodes(pw) else "no")
+"""
+
+
+def kf04() -> bool:
+    """KF-04 (open, dependency): pyppmd's encoder, fed its input in several encode() calls, can emit a stream that does not decode
+    although the same input encoded in one call does.  True iff that is what the library alone, in a process of its own, does
+    with exactly the pieces py7zr fed one of this case's PPMd encoders."""
+    import struct as _struct
+    import subprocess
+
+    for fd in list(PPMD_FEEDS):
+        if fd["overflow"] or len(fd["pieces"]) < 2:
+            continue
+        try:
+            blob = b"".join(_struct.pack("<I", len(x)) + x for x in fd["pieces"])
+            r = subprocess.run([sys.executable, "-c", _KF04_PROBE, str(fd["order"]), str(fd["mem"])], input=blob, capture_output=True, timeout=300)
+        except Exception:
+            continue
+        if r.returncode == 0 and r.stdout == b"kf04":
+            return True
+    return False
+
+
 def absorb_destructor_error():
     """inflate64.Deflater, freed with pending data after a failed write, leaves an error set in its destructor; the next
     unrelated C call then raises SystemError('... returned a result with an exception set').  Trigger and swallow it here."""
@@ -320,7 +417,16 @@ def tag_kf47(out, pairs):
     """pairs: [(filters, [member bytes of that folder in order])].  Marks every violation of a case in which KF-47 applies."""
     absorb_destructor_error()
     if out is None or not getattr(out, "violations", None):
+        del PPMD_FEEDS[:]
         return out
+    try:
+        hit04 = kf04()
+    except Exception:
+        hit04 = False
+    del PPMD_FEEDS[:]
+    if hit04:
+        for v in out.violations:
+            v["signature"]["kf04"] = True
     try:
         hit = any(kf47(f, d) for f, d in pairs)
     except Exception:
@@ -343,3 +449,6 @@ def tag_kf47(out, pairs):
         for v in out.violations:
             v["signature"]["kf72"] = True
     return out
+
+
+install_ppmd_recorder()
